@@ -124,6 +124,12 @@ func vfC07Check(c vfC07Case) error {
 			for k, v := range suites {
 				fresh[k] = proto.Clone(v).(*conformancev1.TestSuite)
 			}
+			if round == 0 {
+				// (built anew rather than cloned: a clone turns an empty list into an absent one)
+				for i, s := range c.Suites {
+					fresh[fmt.Sprintf("suite%d.yaml", i)] = vfSuiteProto(s)
+				}
+			}
 		}
 		lib, err := newTestCaseLibrary(fresh, cfgCases, mode)
 		if err != nil {
